@@ -745,6 +745,16 @@ def push (v : VRing α) (x : α) : Option (VRing α) :=
 `r.push(r.head_place())`): nothing is destroyed or constructed, the head moves on -/
 def pushSelf (v : VRing α) : VRing α := { v with t := { v.t with r := ringMoveHeadOne v.t.r } }
 
+/-- `push(obj)` / `emplace(args)` whose constructor THROWS (round 3b, after the repair
+`try { new (place) T(obj); } catch (...) { new (place) T(); throw; }`): `place->~T();` has run,
+the failed construction has produced no object, the handler value-constructs a `T` (`d` = `T()`)
+in the slot and rethrows; `ring_move_head_one` is not reached. -/
+def pushThrow (v : VRing α) (d : α) : Option (VRing α) :=
+  let h := v.t.r.head.toNat
+  match poke v.t.buf h d with
+  | none => none
+  | some b => some { (v.destruct h).construct h with t := { v.t with buf := b } }
+
 /-- `pop`: `buffer[idx].~T(); new (buffer.data() + idx) T(); ring_move_tail_one(&r);` -/
 def pop (v : VRing α) (d : α) : Option (VRing α) :=
   match v.t.pop d with
@@ -805,6 +815,7 @@ inductive VOp (α : Type) where
   | copy
   | move
   | assign (m : Nat)
+  | pushThrow      -- round 3b: a push / emplace whose constructor throws (the caller catches)
 
 def VRing.step {α : Type} (dflt : α) (v : VRing α) : VOp α → Option (VRing α)
   | .push x => v.push x
@@ -815,6 +826,7 @@ def VRing.step {α : Type} (dflt : α) (v : VRing α) : VOp α → Option (VRing
   | .copy => some (v.copyAndDrop dflt)
   | .move => some v.moveAndDrop
   | .assign m => some (v.assignAndDrop dflt m)
+  | .pushThrow => v.pushThrow dflt
 
 def VRing.run {α : Type} (dflt : α) : VRing α → List (VOp α) → Option (VRing α)
   | v, [] => some v
@@ -877,9 +889,10 @@ def emplaceSelf (v : VRing α) : Option (VRing α) :=
     some { w.construct h with t := { v.t with r := ringMoveHeadOne v.t.r } }
   else none
 
-/-- `push(obj)` whose copy constructor `T(obj)` throws: `place->~T();` has run,
-`new (place) T(obj)` has constructed nothing, `ring_move_head_one` is not reached. -/
-def pushThrow (v : VRing α) : Option (VRing α) :=
+/-- BEFORE the round-3b repair: `push(obj)` whose copy constructor `T(obj)` throws:
+`place->~T();` has run, `new (place) T(obj)` has constructed nothing, the exception leaves
+`push`; `ring_move_head_one` is not reached. -/
+def pushThrowOrig (v : VRing α) : Option (VRing α) :=
   let h := v.t.r.head.toNat
   if h < v.t.buf.length then some (v.destruct h) else none
 
